@@ -146,18 +146,21 @@ class _SubstNames(ast.NodeTransformer):
         return node
 
 
-def _unroll(body: List[ast.stmt]) -> List[ast.stmt]:
+def _unroll(body: List[ast.stmt], consts=None) -> List[ast.stmt]:
     out: List[ast.stmt] = []
     for st in body:
         for fld in ("body", "orelse", "finalbody"):
             sub = getattr(st, fld, None)
             if isinstance(sub, list) and sub and isinstance(sub[0], ast.stmt):
-                setattr(st, fld, _unroll(sub))
+                setattr(st, fld, _unroll(sub, consts))
         if isinstance(st, ast.Try):
             for h in st.handlers:
-                h.body = _unroll(h.body)
+                h.body = _unroll(h.body, consts)
         if isinstance(st, ast.For) and not st.orelse:
-            rows = _is_const_table(st.iter)
+            it = st.iter
+            if isinstance(it, ast.Name) and consts is not None and consts(it.id) is not None:
+                it = consts(it.id)     # a module-level constant table
+            rows = _is_const_table(it)
             names = [n for n in ast.walk(st.target) if isinstance(n, ast.Name)]
             simple = isinstance(st.target, ast.Name) or (isinstance(st.target, (ast.Tuple, ast.List)) and all(isinstance(x, ast.Name) for x in st.target.elts))
             jumps = any(isinstance(x, (ast.Break, ast.Continue)) for s in st.body for x in q.walk_local(s))
@@ -184,7 +187,15 @@ def _unroll(body: List[ast.stmt]) -> List[ast.stmt]:
 
 def normalise(fi: FuncInfo) -> FuncInfo:
     node = copy.deepcopy(fi.node)
-    node.body = _unroll(node.body)
+    locs = q.local_names(node)
+    node.body = _unroll(node.body, lambda nm: fi.module.assigns.get(nm) if nm not in locs else None)
+    # N3: `a, b = (f(p) for p in (x, y))` / list comprehension over a literal of the same arity -> `a, b = (f(x), f(y))`
+    for st in ast.walk(node):
+        if isinstance(st, ast.Assign) and len(st.targets) == 1 and isinstance(st.targets[0], (ast.Tuple, ast.List)) and isinstance(st.value, (ast.GeneratorExp, ast.ListComp)):
+            g = st.value
+            if len(g.generators) == 1 and not g.generators[0].ifs and isinstance(g.generators[0].target, ast.Name) and isinstance(g.generators[0].iter, (ast.Tuple, ast.List)) and len(g.generators[0].iter.elts) == len(st.targets[0].elts):
+                v = g.generators[0].target.id
+                st.value = ast.copy_location(ast.Tuple(elts=[_SubstNames({v: e}).visit(copy.deepcopy(g.elt)) for e in g.generators[0].iter.elts], ctx=ast.Load()), g)
     tmp = FuncInfo(fi.module, fi.qualname, node, fi.cls, fi.parent)
     # N2: aliases of a path that is never (re)assigned in the function
     mapping: Dict[str, ast.AST] = {}
